@@ -116,7 +116,7 @@ class Cli:
         for name in namespace.disable_str_serializable_types:
             self.str_types_registry.remove_by_name(name)
 
-        self.setup_models_data(namespace.model or (), namespace.list or (), parser)
+        self.setup_models_data(namespace.model or (), (), parser)
         self.validate(merge_policy, framework, code_generator)
         self.set_args(merge_policy, structure, framework, code_generator, code_generator_kwargs_raw,
                       dict_keys_regex, dict_keys_fields, disable_unicode_conversion, preamble)
@@ -404,6 +404,8 @@ class Cli:
         )
         parser.add_argument(
             "-l", "--list",
+            # (kept in one list with the --model arguments, so that the samples of a model keep the order of the command line)
+            dest="model",
             nargs=3, action="append", metavar=("<Model name>", "<JSON lookup>", "<JSON file>"),
             help="DEPRECATED, use --model argument instead"
         )
